@@ -600,3 +600,49 @@ Section TwoStep.
     - exact Hc6.
   Qed.
 End TwoStep.
+
+(* ---- the same through [execute], for a hop at the root ---- *)
+Definition sres_of_response (r : response) : sres :=
+  (match rs_data r with JObj l => Some l | _ => None end, rs_errs r).
+Definition response_of_sres (r : sres) : response := {| rs_data := ojson (fst r); rs_errs := snd r |}.
+Lemma sres_response_id r : sres_of_response (response_of_sres r) = r.
+Proof. destruct r as [[l|] e]; reflexivity. Qed.
+
+Definition query_op (vds : list vardef) (sels : list selection) : operation :=
+  {| op_kind := OpQuery; op_name := None; op_vars := vds; op_dirs := []; op_sels := sels |}.
+Definition query_doc (vds : list vardef) (sels : list selection) (frags : list fragment) : document :=
+  DOp (query_op vds sels) :: map DFrag frags.
+
+Lemma execute_query f sc U md vds sels frags supplied root :
+  find_entity U (s_query sc) [] = Some root ->
+  execute f sc U md (query_doc vds sels frags) None supplied =
+  response_of_sres (exec_sels sc U frags (effective_vars (query_op vds sels) (supplied_members supplied)) md f
+                              (s_query sc) {| ov_ent := root; ov_repr := None |} sels []).
+Proof.
+  intros Hroot. unfold execute, query_doc. cbn [pick_op doc_ops]. rewrite doc_ops_map.
+  cbn [op_kind query_op root_type]. rewrite Hroot. cbn [doc_frags]. rewrite doc_frags_map.
+  cbn [op_sels]. unfold supplied_members, response_of_sres, ojson.
+  destruct (exec_sels _ _ _ _ _ _ _ _ _ _) as [r errs]. reflexivity.
+Qed.
+
+(* [two_step = mono_hop] at the root object is the equality of the two [execute] responses: the
+   client operation on the monolith, and step 2 applied to subgraph 1's response *)
+Theorem two_step_execute_bridge
+        U sc frags vdsM supM sc1 frags1 vds1 sup1 sc2 frags2 vds2 sup2 root af f args dirs nn T ks selA selB flA fM f1 f2 :
+  let varsM := effective_vars (query_op vdsM [SField af f args dirs (selA ++ selB)]) (supplied_members supM) in
+  let vars1 := effective_vars (query_op vds1 [SField af f args dirs (selA ++ key_sels ks)]) (supplied_members sup1) in
+  find_entity U (s_query sc) [] = Some root -> s_query sc1 = s_query sc ->
+  two_step U sc1 frags1 vars1 sc2 frags2 vds2 sup2 (s_query sc) root af f args dirs [] nn T ks selA selB flA f1 f2 =
+  mono_hop U sc frags varsM (s_query sc) root af f args dirs [] selA selB fM ->
+  response_of_sres
+    (step2 U sc2 frags2 vds2 sup2 af f [] nn T ks selB flA
+           (sres_of_response
+              (execute f1 sc1 U Sub (query_doc vds1 [SField af f args dirs (selA ++ key_sels ks)] frags1) None sup1)) f2) =
+  execute fM sc U Mono (query_doc vdsM [SField af f args dirs (selA ++ selB)] frags) None supM.
+Proof.
+  intros varsM vars1 Hroot Hq H.
+  rewrite (execute_query fM sc U Mono vdsM _ frags supM root Hroot).
+  rewrite (execute_query f1 sc1 U Sub vds1 _ frags1 sup1 root); [|rewrite Hq; exact Hroot].
+  rewrite sres_response_id. fold varsM. fold vars1. rewrite Hq.
+  unfold two_step, mono_hop in H. rewrite H. reflexivity.
+Qed.
